@@ -52,7 +52,8 @@ class C01:
                 tk = 'auto'
             big = rng.random() < 0.15
             sc = G.draw_scatterer(rng, sk, dmeta['extent'], dmeta['origin'],
-                                  big=big)
+                                  big=big, grid=dmeta if dmeta['kind'] ==
+                                  'grid' else None)
             if rng.random() < 0.05:                 # invalid scatterer
                 sc = ('sphere', {'n': 1.5, 'r': 0.5, 'center': None},
                       {'kind': 'sphere'})
